@@ -19,6 +19,7 @@ git -C /repo apply --check $src/patch.diff 2>/dev/null || base=${SEED_BASE:-d08c
 git -C /repo worktree add --detach -q $root/repo $base || exit 2
 cp /repo/Cargo.lock $root/repo/Cargo.lock
 export CARGO_NET_OFFLINE=true CARGO_TERM_COLOR=never CARGO_TARGET_DIR=/tmp/sv/target-$id
+SV_MT=${SV_MT_TARGET:-/tmp/mt/target-sv}
 demo_path=$(python3 -c "import json;print(json.load(open('$src/meta.json'))['demo_path'])")
 demo_cmd=$(python3 -c "
 import json,re
@@ -39,7 +40,7 @@ verdict="unconfirmed"
 if [ $clean = 0 ] && [ $patched != 0 ] && [ $suite = 0 ] && [ $nfail = 0 ]; then verdict="confirmed"; fi
 echo "$name $verdict"
 export SEED_BASE_USED=$(git -C /repo rev-parse --short $base)
-res=$(MT_BASE=$SEED_BASE_USED MT_TARGET=/tmp/mt/target-sv /verif/tools/mutant.sh sv_$name $src/patch.diff $checks 2>&1 | grep -v "WARNING conda")
+res=$(MT_BASE=$SEED_BASE_USED MT_TARGET=$SV_MT /verif/tools/mutant.sh sv_$name $src/patch.diff $checks 2>&1 | grep -v "WARNING conda")
 echo "$res"
 if [ "$verdict" = confirmed ]; then
   d=/verif/seeded/$name; mkdir -p $d
